@@ -83,13 +83,27 @@ Theorem C11_deletion_carrier : forall w peer seq seid e s w1 o1 s1 rs,
 Proof. exact handle_del_emits. Qed.
 Print Assumptions C11_deletion_carrier.
 
-(* (d) Create URR (re)starts the counter at 0, not removed *)
+(* (d) Create URR for an id the session does not hold (never created, or removed) starts the counter at 0 *)
 Theorem C11_create_urr_restarts : forall e o c i,
-  uo_id o = Some i ->
+  uo_id o = Some i -> held_urr (c_s c) i = None ->
   exists inf, alookup i (s_urrs (c_s (create_urr e o c))) = Some inf /\ ui_seqn inf = 0 /\ ui_removed inf = false /\
               ui_durat inf = bit 0 (uo_method o) /\ ui_volum inf = bit 1 (uo_method o) /\ ui_mnop inf = bit 4 (uo_info o).
 Proof. exact create_urr_restarts. Qed.
 Print Assumptions C11_create_urr_restarts.
+
+(* (d') Create URR for an id the session still holds does NOT restart the running URR's counter (whatever the data plane
+   answers), and when the data plane holds the URR (it then rejects the duplicate) the bookkeeping is exactly what it was *)
+Theorem C11_create_urr_held_keeps_counter : forall e o c i u,
+  uo_id o = Some i -> held_urr (c_s c) i = Some u ->
+  exists inf, alookup i (s_urrs (c_s (create_urr e o c))) = Some inf /\ ui_seqn inf = ui_seqn u /\ ui_removed inf = false.
+Proof. exact create_urr_held_keeps_counter. Qed.
+Print Assumptions C11_create_urr_held_keeps_counter.
+
+Theorem C11_create_urr_duplicate_rejected_unchanged : forall e o c i u,
+  uo_id o = Some i -> held_urr (c_s c) i = Some u -> In (s_lid (c_s c), KURR, i) (c_dp c) ->
+  s_urrs (c_s (create_urr e o c)) = s_urrs (c_s c).
+Proof. exact create_urr_held_rejected_unchanged. Qed.
+Print Assumptions C11_create_urr_duplicate_rejected_unchanged.
 
 (* (e) nothing but emission and Create URR touches a counter: for ANY category order, every URR of the session
    after the per-session operations of a request either existed before with the same counter, or is named by a
@@ -110,18 +124,17 @@ Theorem C11_close_keeps_counters : forall e c c' rs,
 Proof. exact sess_close_kept. Qed.
 Print Assumptions C11_close_keeps_counters.
 
-(* FINDING ((e) cannot be strengthened to "only emission changes a counter"): a Create URR naming a URR id the
-   session already has resets the bookkeeping although the driver rejects the rule: UR-SEQN 0 is sent twice for
-   the same, still running, URR *)
-Example C11_create_urr_existing_id_refuted :
+(* the history of the former finding create-urr-existing-id (fixed): a Create URR naming a URR id the session already
+   has is rejected by the data plane and leaves the counter alone: UR-SEQN 0, then 1 *)
+Example C11_create_urr_existing_id_keeps_counter :
   match run (init 0 1) recreate_urr_history with
   | Ok (_, os) =>
       usar_seqns (nth 2 os []) = [(7, 0)] /\
       nth 3 os [] = [ODrv DCreate KURR 1 7 false; OSend 0 (PModRsp 3 10 CauseAccepted []) false] /\
-      usar_seqns (nth 4 os []) = [(7, 0)]
+      usar_seqns (nth 4 os []) = [(7, 1)]
   | Fault _ => False
   end.
-Proof. exact create_urr_existing_id_refuted. Qed.
+Proof. exact create_urr_existing_id_keeps_counter. Qed.
 
 (* non-vacuity: URR 7 is queried in a Modification whose driver answer holds two reports, then reports once more
    in a Session Report Request (together with a report for the unknown URR 9): UR-SEQN 0,1 then 2 *)
